@@ -91,6 +91,18 @@ func bases(thorough bool) []hx.Base {
 	return b
 }
 
+// gapBase / gapAlphabet: an account without any block gets plasma and a pending send; its first blocks, other traffic and
+// a momentum that skips a pooled predecessor (Mgap)
+func gapBase() hx.Base {
+	return hx.Base{Name: "new-account-with-plasma+pending", Prefix: []ops.Op{
+		{K: "Call", S: "fuse", A: 0, B: 13, V: 50}, {K: "Tx", A: 0, B: 13, T: 0, V: 77}, {K: "Tx", A: 0, B: 1, T: 0, V: 5}, M, M,
+	}}
+}
+
+func gapAlphabet() []ops.Op {
+	return []ops.Op{M, {K: "R", A: 13}, {K: "Tx", A: 13, B: 1, T: 0, V: 5}, {K: "R", A: 1}, {K: "Tx", A: 1, B: 2, T: 0, V: 3}, {K: "Mgap"}}
+}
+
 type prevState struct {
 	conf, pool map[types.ZenonTokenStandard]*big.Int
 }
@@ -136,6 +148,38 @@ func init() {
 		}
 		return "ok"
 	}
+	// Mgap: a momentum of the (misbehaving) pillar elected for the next slot arrives through the bridge. It confirms the
+	// pool except the FIRST of two or more consecutive pooled blocks of one user account: the later block's state is
+	// cemented without the earlier block's effects (a receive that is then still pending, a spend that never happened)
+	ops.Extra["Mgap"] = func(n *vnode.Node, o ops.Op) string {
+		pool := n.Chain.GetNewMomentumContent()
+		count := map[types.Address]int{}
+		for _, b := range pool {
+			if !types.IsEmbeddedAddress(b.Address) {
+				count[b.Address]++
+			}
+		}
+		var content []*nom.AccountBlock
+		skipped := false
+		for _, b := range pool {
+			if !skipped && count[b.Address] >= 2 {
+				skipped = true
+				continue
+			}
+			content = append(content, b)
+		}
+		if !skipped {
+			return "no-account-with-two-pooled-blocks"
+		}
+		gm, err := n.ForgeMomentum(0, content)
+		if err != nil {
+			return "err:forge"
+		}
+		if _, err, pan := n.InsertChain([]*nom.DetailedMomentum{gm}); err != nil || pan != nil {
+			return "refused"
+		}
+		return "ACCEPTED"
+	}
 	xs.Register(&xs.Check{
 		ID:     "C01",
 		Level:  "model_checking",
@@ -178,7 +222,7 @@ func run(c *xs.Ctx, r *xs.Result) {
 		if err := json.Unmarshal(c.Replay, &rep); err != nil {
 			panic(err)
 		}
-		for _, b := range bases(true) {
+		for _, b := range append(bases(true), gapBase()) {
 			if b.Name == rep.Base {
 				replay(c, r, b, rep.History)
 			}
@@ -208,6 +252,11 @@ func run(c *xs.Ctx, r *xs.Result) {
 		Check: func(s *hx.Step) bool { return check(r, s, &prev, &prevTokRecv) },
 	}
 	e.Run()
+	if !r.Incomplete {
+		eg := *e
+		eg.Bases, eg.Alphabet, eg.Depth = []hx.Base{gapBase()}, gapAlphabet(), depth+1
+		eg.Run()
+	}
 	if c.Thorough() && !r.Incomplete {
 		e2 := *e
 		e2.Alphabet = alphabet(true)
